@@ -239,6 +239,15 @@ func c06IdentityWorld(r *simcore.Run) any {
 					matches, late, readable := false, false, false
 					for _, e := range sameRx {
 						matches = matches || (e.fault == "" && e.kernelTx == rp.TransmitTime)
+						// (a receive timestamp that was bumped past a colliding one can lie at or beyond
+						// the kernel transmit timestamp of its own reply - only where handling takes no
+						// time at all; "later than that receive timestamp" then wins: the record holds
+						// the receive timestamp plus a nanosecond)
+						if e.fault == "" && !e.kernelTx.After(e.rx) && rp.TransmitTime.After(e.rx) &&
+							ntp.TimeFromTime64(rp.TransmitTime, now).Sub(ntp.TimeFromTime64(e.rx, now)) <= 2*time.Nanosecond {
+							matches = true
+							r.Probe("kernel-timestamp-not-after-bumped-receive-timestamp")
+						}
 						late = late || e.fault == "late"
 						readable = readable || e.fault == ""
 					}
